@@ -201,7 +201,7 @@ the `Print Assumptions` summary.
 | C15 | Suzuki leaf times sum, leaf count | - | oracle tie | convergence order, exactness, final assignment, controlled variants |
 | C16 | checker soundness | - | reduce agrees on sector, tapering step, projection / freezing matrix elements, Pauli rotation | sector spectra, SCBK |
 | C17 | product homomorphism, checker soundness | RDM mapping identities (two-hole, particle-hole, one-hole, contractions) for all index tuples over 4 modes | low-rank reconstruction, one-body-squared identity, spin-orbital expansion, every active-space partition; RDM mapping functions = the proved right-hand sides on arbitrary integer tensors | truncation values, RDMs of random states |
-| C18 | `C18_grouping_is_partition` (every seed / shuffle family, every operator); checker soundness (by unfolding) | - | grouping model replayed with the recorded shuffles; complete outputs of all generators on complete length ranges | - |
+| C18 | `C18_grouping_is_partition` (every seed / shuffle family, every operator); `C18_pair_between_each_pair_once`, `C18_pair_between_pairing_disjoint` (every pair of lengths); checker soundness (by unfolding) | - | grouping model replayed with the recorded shuffles; complete outputs of all generators on complete length ranges | - |
 | C19 | `C19_alias_table_exact` (every non-negative weight list summing to n t: no overrun, exact table) | same for n <= 5, t <= 5 by enumeration | alias tables, discretisation, norms, QR/QI over complete ranges, QR2/QI2, power_two, cost arithmetic | - |
 | C20 | save/load state machine: no overwrite (step and histories), load-after-save | - | histories vs model, print/parse | MolecularData round trips (HDF5) |
 
